@@ -1,7 +1,7 @@
 """C07 — Map and saved-game readers are safe and self-consistent on arbitrary bytes."""
 from ..extract import AnalysisBroken
 from ..facts import CALLS, CTORS, fmt_term
-from ..flow import Engine, Summaries, final_site_facts, fmt_fact
+from ..flow import Engine, Summaries, final_site_facts, fmt_fact, mentions
 from ..prove import prove_le, Width
 from ..report import ok, bad
 from ..rules_sib import P, returns
@@ -36,35 +36,48 @@ def shifts_and_products(F, S):
         raise AnalysisBroken("ReadMapBeginning: MapHeader local not found")
     lg = ("mem", hdr, "lgWidthInTiles")
     n = 0
+    # every place the header's lgWidthInTiles is shifted by: calls of the shifting accessors on the header, and shifts
+    # written out in this function
+    sinks = []
     for nd in rb.nodes:
         if nd["k"] == "CXXMemberCallExpr" and nd.get("fname") in ("WidthInTiles", "TileCount") and rb.term(nd["obj"]) == hdr:
-            n += 1
-            site = final_site_facts(eng, rb, nd["id"]) or set()
-            inst = "%s::ReadMapBeginning#shift:%s" % (M, nd["fname"])
-            req = "lgWidthInTiles < 32 holds where MapHeader::%s shifts by it" % nd["fname"]
-            if prove_le(site, lg, ("const", 32), strict=True):
-                out.append(ok("R-TAINT", inst, rb.loc(nd["id"]), rb.qn, req, "refusal of lgWidthInTiles >= 32 dominates the call"))
-            else:
-                out.append(bad("R-TAINT", inst, rb.loc(nd["id"]), rb.qn, req, "facts: " + facts_txt(site)))
-            if nd["fname"] == "TileCount":
-                # 32-bit result: the 64-bit product must have been refused above UINT32_MAX
-                prod = ("op", "<<", ("mem", hdr, "heightInTiles"), lg)
-                good = prove_le(site, prod, ("const", 0xffffffff))
-                # the guarded product is formed in 64 bits (in this function or in the helper that holds the guard)
-                wide = False
-                scope = [rb] + [c for x in rb.nodes if x["k"] in CALLS for c in F.callees(x) if c.cfg and not c.cls and "/Map/" in c.file]
-                for f2 in scope:
-                    for x in f2.nodes:
-                        if x["k"] == "BinaryOperator" and x.get("op") == "<<" and x.get("iw") == 64 and "heightInTiles" in repr(f2.term(x["id"])):
-                            wide = True
-                inst = "%s::ReadMapBeginning#tile-count-fits" % M
-                req = "height << lgWidth, formed in 64 bits, is refused above UINT32_MAX before the 32-bit TileCount() sizes the tile array"
-                if good and wide:
-                    out.append(ok("R-TAINT", inst, rb.loc(nd["id"]), rb.qn, req, "64-bit guard dominates TileCount()"))
-                else:
-                    out.append(bad("R-TAINT", inst, rb.loc(nd["id"]), rb.qn, req, "guard %s, formed in 64 bits: %s" % ("present" if good else "missing", wide)))
+            sinks.append((nd, nd["fname"]))
+        elif nd["k"] == "BinaryOperator" and nd.get("op") == "<<" and rb.term(rb.kids(nd["id"])[1]) == lg:
+            sinks.append((nd, "shift"))
+    for nd, what in sinks:
+        n += 1
+        site = final_site_facts(eng, rb, nd["id"]) or set()
+        inst = "%s::ReadMapBeginning#shift:%s" % (M, what if what != "shift" else fmt_term(rb.term(nd["id"])))
+        req = "lgWidthInTiles < 32 holds where it is shifted by (%s)" % what
+        if prove_le(site, lg, ("const", 32), strict=True):
+            out.append(ok("R-TAINT", inst, rb.loc(nd["id"]), rb.qn, req, "refusal of lgWidthInTiles >= 32 dominates"))
+        else:
+            out.append(bad("R-TAINT", inst, rb.loc(nd["id"]), rb.qn, req, "facts: " + facts_txt(site)))
+    # the tile array is sized by height << lgWidth; whatever form the argument takes, the 64-bit product must have been refused
+    # above UINT32_MAX first
+    from .c05 import alias_defs, resolve
+    prod = ("op", "<<", ("mem", hdr, "heightInTiles"), lg)
+    rz = [nd for nd in rb.nodes if nd["k"] == "CXXMemberCallExpr" and nd.get("fname") == "resize" and "obj" in nd
+          and rb.term(nd["obj"])[0] == "mem" and rb.term(nd["obj"])[2] == "tiles"]
+    if len(rz) != 1:
+        raise AnalysisBroken("ReadMapBeginning: expected one resize of the tile array")
+    site = final_site_facts(eng, rb, rz[0]["id"]) or set()
+    arg = resolve(rb.term(rz[0]["args"][0]), {k: v for k, v in alias_defs(rb).items() if k != hdr})
+    good = arg == prod and prove_le(site, prod, ("const", 0xffffffff))
+    wide = False
+    scope = [rb] + [c for x in rb.nodes if x["k"] in CALLS for c in F.callees(x) if c.cfg and not c.cls and "/Map/" in c.file]
+    for f2 in scope:
+        for x in f2.nodes:
+            if x["k"] == "BinaryOperator" and x.get("op") == "<<" and x.get("iw") == 64 and "heightInTiles" in repr(f2.term(x["id"])):
+                wide = True
+    inst = "%s::ReadMapBeginning#tile-count-fits" % M
+    req = "height << lgWidth, formed in 64 bits, is refused above UINT32_MAX before it sizes the tile array"
+    if good and wide:
+        out.append(ok("R-TAINT", inst, rb.loc(rz[0]["id"]), rb.qn, req, "64-bit guard dominates the resize"))
+    else:
+        out.append(bad("R-TAINT", inst, rb.loc(rz[0]["id"]), rb.qn, req, "resize argument %s; guard %s, formed in 64 bits: %s" % (fmt_term(arg), "present" if good else "missing", wide)))
     if n < 2:
-        raise AnalysisBroken("ReadMapBeginning: expected calls to WidthInTiles and TileCount")
+        raise AnalysisBroken("ReadMapBeginning: expected at least two shifts by lgWidthInTiles (width, tile count)")
     # the shifting helpers themselves are only called from guarded sites
     from ..invariants import callers_map
     cm = callers_map(F)
@@ -72,8 +85,9 @@ def shifts_and_products(F, S):
         fn = F.fn(MH + "::" + nm, nparams=0)
         callers = sorted(cm.get(fn.key, set()))
         inst = "%s::%s#callers" % (MH, nm)
-        if callers and all(c == rb.key for c in callers):
-            out.append(ok("R-WHOCALLS", inst, fn.loc(fn.body), fn.qn, "the unguarded shift helper is called only from the guarded reader", "callers: ReadMapBeginning"))
+        if all(c == rb.key for c in callers):
+            out.append(ok("R-WHOCALLS", inst, fn.loc(fn.body), fn.qn, "the unguarded shift helper is called only from the guarded reader",
+                          "callers: ReadMapBeginning" if callers else "no callers in the library", nontrivial=bool(callers)))
         else:
             out.append(bad("R-WHOCALLS", inst, fn.loc(fn.body), fn.qn, "the unguarded shift helper is called only from the guarded reader", "callers: %s" % [c.split("(")[0] for c in callers]))
     # tile group area
@@ -194,15 +208,18 @@ def tileset_sources(F, S):
         out.append(ok("R-MUSTCALL", inst, fn.loc(rd[0]["id"]), fn.qn, "a tileset name longer than 8 characters is refused before the entry is used", "size() <= 8 holds at the next read"))
     else:
         out.append(bad("R-MUSTCALL", inst, fn.loc(rd[0]["id"]), fn.qn, "a tileset name longer than 8 characters is refused before the entry is used", "facts: " + facts_txt(site)))
-    th = F.fn(M + "::ReadTilesetHeader", nparams=1)
+    th, _inlined = F.fn_or_host(M + "::ReadTilesetHeader", 1, M + "::ReadMapBeginning", 1)
     eng = Engine(F, S)
     ex = eng.analyze(th, frozenset()) or frozenset()
-    good = any(f[0] == "ev" and f[1] == "passed" and "tilesetHeader" in repr(f) for f in ex)
+    # the marker buffer: the local std::array<char, 10> that is read from the stream
+    markers = [("var", d["n"], d["d"]) for nd in th.nodes if nd["k"] == "DeclStmt" for d in nd.get("decls", [])
+               if "array<char, 10>" in (d.get("ct") or d.get("rec") or "")]
+    good = bool(markers) and any(f[0] == "ev" and f[1] == "passed" and any(mentions(f[2], m) for m in markers) and "tilesetHeader" in repr(f[2]) for f in ex)
     # the comparison covers the whole 10-byte marker (array equality, or memcmp over sizeof): a prefix comparison would
     # accept bytes the writer never emits
     whole = False
     for nd in th.nodes:
-        if nd["k"] == "CXXOperatorCallExpr" and nd.get("op") in ("!=", "==") and "tilesetHeader" in repr(th.term(nd["id"])) \
+        if nd["k"] == "CXXOperatorCallExpr" and nd.get("op") in ("!=", "==") and any(mentions(th.term(nd["id"]), m) for m in markers) \
                 and all("std::array<char, 10>" in (th.n(th.strip(a)).get("ct") or "") for a in nd.get("args", [])):
             whole = True
         if nd["k"] in CALLS and nd.get("fname") == "memcmp" and len(nd.get("args", [])) == 3 and th.term(nd["args"][2]) == ("const", 10):
